@@ -103,7 +103,7 @@ fn collect_quoted(t: &T, out: &mut Vec<T>) { if let T::Quoted(s, p, o) = t { out
 impl Prop for C15 {
     type Case = DictCase;
     fn id(&self) -> &'static str { "C15" }
-    fn expected_counters(&self) -> Vec<&'static str> { vec!["probe.full_recheck_of_issued_ids", "probe.both_operands_hold_quoted_terms", "probe.operands_share_quads", "probe.identifiers_clash_between_operands", "probe.identical_dictionaries_different_quoted_stores", "fault.identifier_space_exhausted"] }
+    fn expected_counters(&self) -> Vec<&'static str> { vec!["probe.full_recheck_of_issued_ids", "probe.both_operands_hold_quoted_terms", "probe.operands_share_quads", "probe.identifiers_clash_between_operands", "probe.identical_dictionaries_different_quoted_stores", "fault.identifier_space_exhausted", "probe.refused_term_refused_again_on_retry"] }
     fn budget(&self, tier: Tier) -> Budget { match tier { Tier::Quick => Budget { runs: 6000, wall_s: 60, recheck: 30 }, Tier::Thorough => Budget { runs: 300_000, wall_s: 1000, recheck: 100 } } }
     fn hash_seed(&self, c: &DictCase) -> u64 { c.hash_seed }
     fn gen(&self, seed: u64, _i: u64, _t: Tier) -> DictCase {
@@ -150,7 +150,20 @@ impl Prop for C15 {
                 let term = format!("http://e/late{}", k);
                 let t2 = term.clone(); let dbr = &a;
                 match guard(move || dbr.dictionary.write().map(|mut d| d.encode(&t2)).ok()) {
-                    Err((_, msg)) => { if !msg.contains("exhausted") { return Some(Violation::new("unwind", format!("encoding a new term near the end of the identifier space unwound: {}", msg))); } ctx.hit("fault.identifier_space_exhausted"); a.dictionary.clear_poison(); break; }
+                    Err((_, msg)) => {
+                        if !msg.contains("exhausted") { return Some(Violation::new("unwind", format!("encoding a new term near the end of the identifier space unwound: {}", msg))); }
+                        ctx.hit("fault.identifier_space_exhausted"); a.dictionary.clear_poison();
+                        // the refused call must leave no trace: offering the same term again is refused again (or, if accepted, gets a
+                        // plain identifier that decodes back), and no plain term sits on a quoted-triple identifier
+                        let t3 = term.clone(); let dbr = &a;
+                        match guard(move || dbr.dictionary.write().map(|mut d| d.encode(&t3)).ok()) {
+                            Err(_) => { a.dictionary.clear_poison(); ctx.hit("probe.refused_term_refused_again_on_retry"); }
+                            Ok(None) => {}
+                            Ok(Some(id)) => { if is_quoted_triple_id(id) || a.decode_any(id).as_deref() != Some(term.as_str()) { return Some(Violation::new("id-range", format!("term {:?} was refused (identifier space exhausted); offering it again returns identifier {:#x}, which decodes to {:?}", term, id, a.decode_any(id)))); } }
+                        }
+                        if a.dictionary.read().map(|d| d.string_to_id.values().any(|v| is_quoted_triple_id(*v))).unwrap_or(false) { return Some(Violation::new("id-range", "after a refused encode the dictionary maps a plain term to an identifier of the quoted-triple range".to_string())); }
+                        break;
+                    }
                     Ok(None) => break,
                     Ok(Some(id)) => {
                         if is_quoted_triple_id(id) { return Some(Violation::new("id-range", format!("plain term {:?} got identifier {:#x}, which lies in the quoted-triple range (next_id was {} below the boundary)", term, id, gap))); }
